@@ -22,6 +22,7 @@ import (
 	"runtime"
 	"strings"
 	"sync"
+	"syscall"
 	"time"
 )
 
@@ -127,6 +128,38 @@ func c04CrashResult(id, lastOp string, stderr string) c04Result {
 	return res
 }
 
+// c04HangFrame: where the main goroutine of a stalled worker is.  A runaway loop has no stable top
+// frame, so the class is the recursive function when the stack repeats one, otherwise the OUTERMOST
+// frame below the pipeline entry (which jenny / front-end / pass the run is stuck in).
+func c04HangFrame(stderr string) (string, string) {
+	i := strings.Index(stderr, "\ngoroutine 1 ")
+	if i < 0 {
+		return "?", ""
+	}
+	block := stderr[i:]
+	if j := strings.Index(block, "\n\ngoroutine "); j > 0 {
+		block = block[:j]
+	}
+	lines := strings.Split(block, "\n")
+	if root := c04RecursionRoot(lines); root != "?" && !strings.HasPrefix(root, "recursion:lib:") {
+		return root, c04Clip2(block, 3000)
+	}
+	outer := ""
+	for _, l := range lines {
+		if strings.HasPrefix(l, c04CogModule) && !strings.Contains(l, "/cmd/verifharness") {
+			fn := c04FrameName(l)
+			if strings.HasPrefix(fn, "internal/codegen.") || strings.HasPrefix(fn, "internal/jennies/common.") {
+				continue
+			}
+			outer = fn // keep the last one seen = outermost
+		}
+	}
+	if outer == "" {
+		return "?", c04Clip2(block, 3000)
+	}
+	return "hang:" + outer, c04Clip2(block, 3000)
+}
+
 // run one case on the worker; ok=false means the worker is gone and must be replaced
 func (p *c04Proc) run(c *c04Case, timeout time.Duration) (c04Result, bool) {
 	blob, _ := json.Marshal(c)
@@ -166,8 +199,21 @@ func (p *c04Proc) run(c *c04Case, timeout time.Duration) (c04Result, bool) {
 			}
 			return res, true
 		case <-timer.C:
+			// ask the Go runtime of the worker for a goroutine dump before killing it
+			frame, stack := "?", ""
+			if p.cmd.Process != nil {
+				_ = p.cmd.Process.Signal(syscall.SIGQUIT)
+				select {
+				case <-p.done:
+				case <-time.After(8 * time.Second):
+				}
+				p.errMu.Lock()
+				se := p.stderr.String()
+				p.errMu.Unlock()
+				frame, stack = c04HangFrame(se)
+			}
 			p.kill()
-			return c04Result{ID: c.ID, Outcome: "timeout", Stage: lastOp, Frame: "?", Msg: fmt.Sprintf("no result within %s", timeout), Raw: "watchdog"}, false
+			return c04Result{ID: c.ID, Outcome: "timeout", Stage: lastOp, Frame: frame, Msg: "no result within the watchdog time", Raw: fmt.Sprintf("watchdog %s", timeout), Stack: stack}, false
 		}
 	}
 }
